@@ -144,6 +144,7 @@ func (s *Spec) write(overwrite bool) error {
 	if err != nil {
 		return fmt.Errorf("failed to marshal Spec file: %w", err)
 	}
+	verifPoint("marshalled", s.path)
 
 	dir = filepath.Dir(s.path)
 	err = os.MkdirAll(dir, 0o755)
@@ -155,13 +156,17 @@ func (s *Spec) write(overwrite bool) error {
 	if err != nil {
 		return fmt.Errorf("failed to create Spec file: %w", err)
 	}
+	verifPoint("created", tmp.Name())
 	_, err = tmp.Write(data)
+	verifPoint("written", tmp.Name())
 	_ = tmp.Close()
+	verifPoint("closed", tmp.Name())
 	if err != nil {
 		return fmt.Errorf("failed to write Spec file: %w", err)
 	}
 
 	err = renameIn(dir, filepath.Base(tmp.Name()), filepath.Base(s.path), overwrite)
+	verifPoint("renamed", s.path)
 
 	if err != nil {
 		_ = os.Remove(tmp.Name())
